@@ -23,6 +23,18 @@ def rp_check(pid, tier, seed, replay=None):
     try:
         if tier == "replay":
             return rp_replay(pid, wd, replay)
+        r = rp_part(pid, tier, seed, wd, (pid + ".", "C09."))
+        if r.get("race"):
+            return 1
+        write_evidence(pid, tier, seed, "model_checking", r["coverage"], time.time() - t0, r["new"], assumptions=r["assumptions"])
+        return 1 if r["new"] else 0
+    finally:
+        cleanup(wd)
+
+
+def rp_part(pid, tier, seed, wd, prefixes):
+    """The relying-party pipeline (RPDesign -> RPMBT -> real handlers -> RPTrace); rule failures are filtered by prefix."""
+    if True:
         sz = SIZES[tier]
         d = tlc(wd, "RPDesign.tla", cfg=f"RPDesign_{tier}.cfg", timeout=3600)
         log(f"[{pid}] design RPDesign_{tier}.cfg: {d['distinct']} distinct / {d['generated']} generated states, depth {d['depth']}: NoViolation holds")
@@ -39,11 +51,14 @@ def rp_check(pid, tier, seed, replay=None):
             with open(os.path.join(wd, "race.txt"), "w") as f:
                 f.write(out)
             p = save_replay(pid, wd, ["race.txt", "b.ndjson"], seed, tier)
+            if not any(x.startswith("C17") for x in prefixes):
+                raise Inconclusive("race detector report in the relying-party stress run (judged by C17)")
             log(f"VIOLATION property={pid} replay={p} signature=C17.datarace :: race detector report while several browsers logged in through one handler")
-            return 1
+            return dict(race=True, new=1, known=0, coverage={}, assumptions=[])
         if rc != 0 or "REPLAYED" not in out:
             raise Inconclusive("rp-replay failed:\n" + out[-3000:])
         viols, lines = rp_monitor(wd)
+        viols = [v for v in viols if v["rule"].startswith(tuple(prefixes))]
         trace = read_ndjson(os.path.join(wd, "trace.ndjson"))
         for v in viols:
             e = trace[v["line"] - 1]
@@ -57,7 +72,7 @@ def rp_check(pid, tier, seed, replay=None):
                             lambda v: dict(rule=v["rule"], line=v["line"], run=v["run"], op=v["op"], args=v["args"], observed=v["observed"]),
                             wd, ["trace.ndjson", "viol.ndjson", "b.ndjson"], seed, tier)
         runs = sum(1 for e in trace if e["op"] == "Reset")
-        write_evidence(pid, tier, seed, "model_checking", dict(
+        coverage = (dict(
             states=d["distinct"], transitions=d["generated"], traces_validated_against_impl=runs,
             samples=[dict(op=e["op"], args=e["args"], out=e["out"]) for e in trace[1:10]],
             evaluations=len(trace), distinct_nontrivial=len({json.dumps([e["op"], e["args"], e["out"].get("class")], sort_keys=True) for e in trace}),
@@ -66,14 +81,12 @@ def rp_check(pid, tier, seed, replay=None):
             tlc_behaviours_replayed=len(behs), random_histories=sz["rand"], monitor_lines=lines,
             event_coverage={f"{k[0]}:{k[1]}": v for k, v in sorted(cov.items(), key=str)},
             callback_coverage={f"{k[0]}/{k[1]}:{k[2]}": v for k, v in sorted(tam.items(), key=str)},
-            known_findings_seen=known, exhaustive=False), time.time() - t0, new,
-            assumptions=["fake provider = http.RoundTripper recording every token request; the RP is rp.NewRelyingPartyOAuth (no ID token), so only the login handlers are under test",
+            known_findings_seen=known, exhaustive=False))
+        assumptions = (["fake provider = http.RoundTripper recording every token request; the RP is rp.NewRelyingPartyOAuth (no ID token), so only the login handlers are under test",
                          "cookie tampering: dropped, minted under another key, minted for the other cookie name, truncated; state parameter: exact, proper prefix, with suffix, empty, never issued",
                          "concurrent logins through one handler run under the race detector; each response is judged against its own cookies"])
-        log(f"[{pid}] {len(behs)} TLC behaviours + {sz['rand']} random histories + concurrent logins (-race): {len(trace)} events validated by RPTrace; {len(viols)} rule failures ({new} new, {known} known)")
-        return 1 if new else 0
-    finally:
-        cleanup(wd)
+        log(f"[{pid}] {len(behs)} TLC behaviours + {sz['rand']} random histories + concurrent logins (-race): {len(trace)} events validated by RPTrace; {len(viols)} rule failures with prefix {list(prefixes)} ({new} new, {known} known)")
+        return dict(new=new, known=known, coverage=coverage, assumptions=assumptions)
 
 
 def rp_replay(pid, wd, path):
